@@ -485,3 +485,136 @@ def check_linear_fields(ctx, rule, prog):
     bad = sorted(f for f in summed if zeros.get(f) != 0)
     ctx.ob(rule, 'init:accumulators-zero', not bad,
            'every accumulated field starts at 0 in Group.__init__ (not zero: %s)' % bad, mod, init)
+
+
+# ------------------------------------------------------ the bond pair routine
+def pair_fact_kind(pair):
+    """Classifier for the facts that dominate statements of the bond maker's
+    pair routine (``pair``: the FunctionDef)."""
+    pair_params = [a.arg for a in pair.args.args if a.arg != 'self']
+
+    def fact_kind(expr, positive):
+        if isinstance(expr, ast.Call) and last_attr(expr) == 'check_distance' and \
+                sorted(norm(a) for a in expr.args) == sorted(pair_params):
+            return 'criterion' if positive else 'not-criterion'
+        if isinstance(expr, ast.Compare) and len(expr.ops) == 1:
+            op, lhs, rhs = expr.ops[0], expr.left, expr.comparators[0]
+            if isinstance(op, (ast.IsNot, ast.NotEq)) and positive and \
+                    sorted([norm(lhs), norm(rhs)]) == sorted(pair_params):
+                return 'irreflexive'
+            if isinstance(op, ast.In) and not positive and isinstance(rhs, ast.Attribute) \
+                    and rhs.attr == 'bonded_atoms' and \
+                    sorted([norm(lhs), norm(rhs.value)]) == sorted(pair_params):
+                return 'not-yet-bonded'
+            if isinstance(op, ast.Eq) and positive and isinstance(lhs, ast.Attribute) \
+                    and lhs.attr == 'element' and norm(lhs.value) in pair_params \
+                    and isinstance(rhs, ast.Constant) and rhs.value == 'S':
+                return 'sulfur:' + norm(lhs.value)
+        return 'other:%s%s' % ('' if positive else 'not ', norm(expr))
+    return fact_kind
+
+
+def check_pair_routine(ctx, rule, mod):
+    """A bond is made for a pair exactly when the distance criterion holds:
+    the single call of make_bond in BondMaker._find_bonds_for_atoms is
+    dominated by the positive criterion and by nothing else that depends on
+    the pair (the irreflexivity assertion and the already-bonded shortcut
+    excepted)."""
+    pair = mod.func('BondMaker._find_bonds_for_atoms')
+    fact_kind = pair_fact_kind(pair)
+    mk_calls = [c for c in calls_in(pair) if last_attr(c) == 'make_bond']
+    ok_pair = False
+    kinds = []
+    if len(mk_calls) == 1:
+        kinds = sorted(fact_kind(e, p) for e, p in facts_at(mk_calls[0], pair))
+        ok_pair = 'criterion' in kinds and \
+            set(kinds) <= {'criterion', 'irreflexive', 'not-yet-bonded'}
+    ctx.ob(rule, 'pair:bond-iff-criterion', ok_pair,
+           'a bond is made exactly under the positive pair criterion: the call of make_bond is '
+           'dominated by the criterion and by nothing else that depends on the pair '
+           '(dominating facts: %s)' % kinds, mod,
+           mk_calls[0] if mk_calls else pair)
+
+
+# ------------------------------------------------- fixed-column record fields
+def check_fixed_columns(ctx, rule, prog, attrs):
+    """Each of the given Atom attributes is defined in Atom.set_properties by a
+    single assignment whose only read of the record is a slice with constant
+    bounds covering exactly that attribute's PDB field - not by splitting a
+    wider slice at white space, which fuses adjacent fields when a value fills
+    its columns (a coordinate <= -100.000 or >= 1000.000 does)."""
+    from sa.tables import subscript_range, PDB_COLUMNS
+    amod = prog.mod('atom')
+    sp = amod.func('Atom.set_properties')
+    line_p = [a.arg for a in sp.args.args][1]
+    field_of = {'x': 'x', 'y': 'y', 'z': 'z', 'res_num': 'resseq', 'chain_id': 'chain',
+                'res_name': 'resname', 'name': 'name', 'icode': 'icode', 'numb': 'serial',
+                'occ': 'occupancy', 'beta': 'bfactor'}
+    ranges = {name: (a, b) for name, a, b in PDB_COLUMNS}
+    defs = {}
+    for st in walk_no_nested(sp):
+        if isinstance(st, ast.Assign):
+            for t in st.targets:
+                for sub in ast.walk(t):
+                    if isinstance(sub, ast.Attribute) and norm(sub.value) == 'self' \
+                            and sub.attr in attrs and isinstance(sub.ctx, ast.Store):
+                        defs.setdefault(sub.attr, []).append((st, t))
+    for attr in attrs:
+        want = ranges[field_of[attr]]
+        sites = [(st, t) for st, t in defs.get(attr, [])
+                 if any(isinstance(n, ast.Name) and n.id == line_p for n in ast.walk(st.value))]
+        ok = len(sites) == 1
+        why = '%d definitions from the record' % len(sites)
+        node = sites[0][0] if sites else sp
+        if ok:
+            st, t = sites[0]
+            subs = [n for n in ast.walk(st.value) if isinstance(n, ast.Subscript)
+                    and dotted(n.value) == line_p]
+            bare = [n for n in ast.walk(st.value) if isinstance(n, ast.Name) and n.id == line_p
+                    and not (isinstance(n._parent, ast.Subscript) and n._parent.value is n)]
+            splits = [c for c in calls_in(st.value if isinstance(st.value, ast.AST) else st)
+                      if last_attr(c) in ('split', 'rsplit', 'partition', 'splitlines')]
+            rng = subscript_range(subs[0]) if len(subs) == 1 else None
+            ok = isinstance(t, ast.Attribute) and len(subs) == 1 and not bare and not splits \
+                and rng == want
+            why = 'reads %s%s' % ([norm(x) for x in subs],
+                                  ', tokenised by %s' % [norm(c.func) for c in splits] if splits else '')
+        ctx.ob(rule, 'fixed-columns:' + attr, ok,
+               'Atom.%s is read from exactly the columns %d-%d of the record by one fixed slice (%s)'
+               % (attr, want[0] + 1, want[1], why), amod, node)
+
+
+# ------------------------------------------------- residue strings of -i
+def check_res_string_parse(ctx, rule, prog):
+    """parse_res_string hands the chain, number and insertion code of a
+    "chain:number[icode]" entry through unchanged (apart from int())."""
+    from sa.canon import canon
+    lib = prog.mod('lib')
+    prs = lib.func('parse_res_string')
+    rets = [r for r in walk_no_nested(prs) if isinstance(r, ast.Return)]
+    shape_ok = len(rets) == 1 and isinstance(rets[0].value, ast.Tuple) and len(rets[0].value.elts) == 3
+    ctx.ob(rule, 'parse:returns-triple', shape_ok,
+           'parse_res_string returns a (chain, number, insertion code) triple', lib,
+           rets[0] if rets else prs)
+    if shape_ok:
+        can = canon(prs)
+        arg = prs.args.args[0].arg
+        exp = can.expr(rets[0].value)
+
+        def alts(e):
+            return list(e.args) if isinstance(e, ast.Call) and norm(e.func) == 'alt' else [e]
+        texts = [sorted(norm(a).replace('"', "'") for a in alts(e)) for e in exp.elts]
+        before = "%s.split(':')[0]" % arg
+        after = "%s.split(':')[1]" % arg
+        ctx.ob(rule, 'parse:chain-before-colon', texts[0] == [before],
+               'the chain is the part before the colon, unmodified (it is compared with the raw '
+               'chain column, which is case sensitive); found %s' % texts[0], lib, rets[0])
+        ctx.ob(rule, 'parse:number-is-int',
+               sorted(texts[1]) == sorted(['int(%s)' % after, 'int(%s[:-1])' % after]),
+               'the residue number is int() of the part after the colon, with or without its '
+               'trailing insertion-code character (Atom.res_num is an int too); found %s' % texts[1],
+               lib, rets[0])
+        ctx.ob(rule, 'parse:icode-default-blank',
+               sorted(texts[2]) == sorted(["' '", '%s[-1]' % after]),
+               "the insertion code is the trailing character, or ' ' (the raw blank column) when "
+               "there is none (found %s)" % texts[2], lib, rets[0])
